@@ -1,5 +1,6 @@
 import PsyVerif.Model.Frontend
 import PsyVerif.Lemmas.MiniFSem
+import PsyVerif.Lemmas.Frontend
 /-! # C01 — Reading and re-writing Fortran preserves program behaviour -/
 namespace C01
 open MiniF
@@ -154,5 +155,205 @@ theorem low_sound (env : Env) (hw : WhereLeaf env) (s : Src) :
       rcases g with g | g
       · rw [hl] at g; cases g
       · exact hw tag wv cl s hl g σ
+
+/-- `Src` programs without source-only constructs are MiniF programs with the same semantics -/
+theorem toMiniF_exec (env : Env) (s : Src) : ∀ m, toMiniF s = some m → ∀ σ, execSrc env s σ = exec m σ := by
+  induction s with
+  | skip => intro m h σ; cases h; rfl
+  | assign x e => intro m h σ; cases h; rfl
+  | store1 a i e => intro m h σ; cases h; rfl
+  | store2 a i j e => intro m h σ; cases h; rfl
+  | seq a b iha ihb =>
+    intro m h σ
+    simp only [toMiniF] at h
+    cases ha : toMiniF a with
+    | none => simp [ha] at h
+    | some x =>
+      cases hb : toMiniF b with
+      | none => simp [ha, hb] at h
+      | some y =>
+        simp only [ha, hb, Option.some.injEq] at h
+        subst h
+        have h1 := iha x ha
+        have h2 := ihb y hb
+        simp only [execSrc] at h1 h2 ⊢
+        simp only [run, exec, h1, h2]
+  | ifc c t f iht ihf =>
+    intro m h σ
+    simp only [toMiniF] at h
+    cases ha : toMiniF t with
+    | none => simp [ha] at h
+    | some x =>
+      cases hb : toMiniF f with
+      | none => simp [ha, hb] at h
+      | some y =>
+        simp only [ha, hb, Option.some.injEq] at h
+        subst h
+        have h1 := iht x ha
+        have h2 := ihf y hb
+        simp only [execSrc] at h1 h2 ⊢
+        simp only [run, exec, h1, h2]
+  | doc v lo hi st b ih =>
+    intro m h σ
+    cases st with
+    | none => simp [toMiniF] at h
+    | some e =>
+      simp only [toMiniF] at h
+      cases hb : toMiniF b with
+      | none => simp [hb] at h
+      | some x =>
+        simp only [hb, Option.some.injEq] at h
+        subst h
+        have h1 := ih x hb
+        simp only [execSrc] at h1 ⊢
+        have hf : (fun τ => (run env b false 0 τ).2) = exec x := funext h1
+        simp only [run, exec, hf]
+  | selectCase lg sel cs _ => intro m h; simp [toMiniF] at h
+  | caseItem vals body rest _ _ => intro m h; simp [toMiniF] at h
+  | caseDefault body rest _ _ => intro m h; simp [toMiniF] at h
+  | caseEnd => intro m h; simp [toMiniF] at h
+  | whereC t wv cl => intro m h; simp [toMiniF] at h
+  | arrAssign t a sc rhs => intro m h; simp [toMiniF] at h
+  | codeBlock s _ => intro m h; simp [toMiniF] at h
+
+theorem whereLeaf (env : Env) : WhereLeaf env :=
+  fun tag wv cl s hl he σ => where_lowered_sound env tag wv cl s hl he σ
+
+/-! ## The property -/
+
+/-- **C01, full statement** (model level): lowering never changes the behaviour of a
+well-formed program.  FALSE of the pinned reader (see the counterexamples): kept as a `def`. -/
+def C01_statement : Prop :=
+  ∀ (env : Env) (s : Src), wf s false = true → ∀ σ, execSrc env (lower env s) σ = execSrc env s σ
+
+/-- **whole programs**: if every WHERE in the program is refused (CodeBlock) or elemental
+(`good`), the lowered program — IF chains for SELECT CASE, loops for WHERE, defaults for DO
+steps, verbatim CodeBlocks — has the behaviour of the source program, for all inputs. -/
+theorem C01_lower_sound (env : Env) (s : Src) (hwf : wf s false = true) (hg : good env s = true) (σ : Store) :
+    execSrc env (lower env s) σ = execSrc env s σ :=
+  (low_sound env (whereLeaf env) s).1 hwf hg σ
+
+/-- **SELECT CASE** → IF chain (`==`, `>=`/`<=`, `.EQV.`, selector re-evaluated in every
+test, default body last) is sound for ALL case lists: values, ranges `lo:hi`, `lo:`, `:hi`,
+empty ranges, lists, default in any position or absent, integer and logical selectors.
+(MiniF expressions have no side effects, so every selector is pure.) -/
+theorem C01_lower_case_sound (env : Env) (lg : Bool) (sel : Expr) (cs : Src)
+    (hwf : wf cs true = true) (hg : good env cs = true) (σ : Store) :
+    execSrc env (lower env (.selectCase lg sel cs)) σ = execSrc env (.selectCase lg sel cs) σ :=
+  C01_lower_sound env _ (by simpa [wf] using hwf) (by simpa [good] using hg) σ
+
+/-- **DO**: a missing step becomes the literal 1; unconditional. -/
+theorem C01_lower_do_sound (env : Env) (v : Nat) (lo hi : Expr) (st : Option Expr) (b : Src)
+    (hwf : wf b false = true) (hg : good env b = true) (σ : Store) :
+    execSrc env (lower env (.doc v lo hi st b)) σ = execSrc env (.doc v lo hi st b) σ :=
+  C01_lower_sound env _ (by simpa [wf] using hwf) (by simpa [good] using hg) σ
+
+/-- **IF / ELSE IF / ELSE** (nested IfBlocks); unconditional. -/
+theorem C01_lower_if_sound (env : Env) (c : Expr) (t f : Src)
+    (hwf : wf t false = true ∧ wf f false = true) (hg : good env t = true ∧ good env f = true) (σ : Store) :
+    execSrc env (lower env (.ifc c t f)) σ = execSrc env (.ifc c t f) σ :=
+  C01_lower_sound env _ (by simp [wf, hwf.1, hwf.2]) (by simp [good, hg.1, hg.2]) σ
+
+/-- a lowered program without CodeBlocks is a MiniF program with the same behaviour (`MiniF.exec`) -/
+theorem C01_lowered_is_minif (env : Env) (s : Src) (m : Stmt) (h : toMiniF (lower env s) = some m)
+    (hwf : wf s false = true) (hg : good env s = true) (σ : Store) : exec m σ = execSrc env s σ := by
+  rw [← toMiniF_exec env _ m h σ]
+  exact C01_lower_sound env s hwf hg σ
+
+/-- **WHERE / ELSEWHERE, partial**: for an elemental construct (unit strides, sections of
+assigned arrays aligned with the assignments, no reduction over an assigned array, scalar
+parts independent of the assigned arrays, fresh loop variable) the generated loop nest computes
+the STANDARD semantics (`execWhere`: masks once, statement by statement) at every location
+other than the fresh loop variable — for all array extents and bounds and all stores. -/
+theorem C01_lower_where_sound_partial (env : Env) (tag wv : Nat) (cl : WClauses) (s : Src)
+    (hl : lowerWhere env wv cl = some s) (he : whereElemental env wv cl = true) (σ : Store)
+    (l : Loc) (hne : l ≠ (wv, 0, 0)) : execSrc env s σ l = execWhere env cl σ l := by
+  rw [where_lowered_sound env tag wv cl s hl he σ]
+  simp only [execSrc, run]
+  rw [Store.set_apply, if_neg hne]
+
+/-- a refused WHERE (CodeBlock) keeps the source statement -/
+theorem C01_where_refused (env : Env) (tag wv : Nat) (cl : WClauses) (h : lowerWhere env wv cl = none) :
+    lower env (.whereC tag wv cl) = .codeBlock (.whereC tag wv cl) := by
+  simp [lower, low, h]
+
+/-! ### the two probed defects, on the model -/
+
+def envW : Env := [(0, ⟨1, 5, true⟩), (1, ⟨1, 5, true⟩)]
+
+/-- `where (a(:) > 2) a(:) = sum(a)` -/
+def wSum : Src := .whereC 1 9 (.masked (.bin .gt (.sec 0 Sec.full) (.scal (.lit 2))) [⟨0, Sec.full, .sum 0⟩] .nil)
+def σSum : Store := storeOf [((0, 1, 0), 1), ((0, 2, 0), 2), ((0, 3, 0), 3), ((0, 4, 0), 4), ((0, 5, 0), 5)]
+
+/-- the lowered loop re-evaluates SUM(a): a(4) becomes 27 instead of 15 -/
+theorem C01_where_sum_counterexample :
+    execSrc envW wSum σSum (0, 4, 0) = 15 ∧ execSrc envW (lower envW wSum) σSum (0, 4, 0) = 27 := by
+  decide +kernel
+
+/-- `where (b(:) > 0) b(:) = a(5:1:-1)` -/
+def wStride : Src :=
+  .whereC 2 9 (.masked (.bin .gt (.sec 1 Sec.full) (.scal (.lit 0))) [⟨1, Sec.full, .sec 0 ⟨some 5, some 1, some (-1)⟩⟩] .nil)
+def σStride : Store := storeOf
+  [((0, 1, 0), 10), ((0, 2, 0), 20), ((0, 3, 0), 30), ((0, 4, 0), 40), ((0, 5, 0), 50),
+   ((1, 1, 0), -1), ((1, 2, 0), 0), ((1, 3, 0), 1), ((1, 4, 0), 2), ((1, 5, 0), 3)]
+
+/-- the stride is ignored: b(3) gets a(7) (out of bounds, 0 here) instead of a(3) = 30 -/
+theorem C01_where_stride_counterexample :
+    execSrc envW wStride σStride (1, 3, 0) = 30 ∧ execSrc envW (lower envW wStride) σStride (1, 3, 0) = 0 := by
+  decide +kernel
+
+/-- `where (a(:) > 0) a(:) = a(:) + a(1)` -/
+def wElem : Src :=
+  .whereC 3 9 (.masked (.bin .gt (.sec 0 Sec.full) (.scal (.lit 0)))
+    [⟨0, Sec.full, .bin .add (.sec 0 Sec.full) (.scal (.idx1 0 (.lit 1)))⟩] .nil)
+
+/-- the element `a(1)` is re-read after it has been assigned: a(2) becomes 4 instead of 3 -/
+theorem C01_where_element_counterexample :
+    execSrc envW wElem σSum (0, 2, 0) = 3 ∧ execSrc envW (lower envW wElem) σSum (0, 2, 0) = 4 := by
+  decide +kernel
+
+theorem C01_statement_false : ¬ C01_statement := by
+  intro h
+  have h1 := congrArg (fun τ : Store => τ (0, 4, 0)) (h envW wSum (by decide) σSum)
+  have h2 := C01_where_sum_counterexample
+  simp only [h2.1, h2.2] at h1
+  exact absurd h1 (by decide)
+
+/-! ### non-vacuity and sanity -/
+
+/-- a three-statement WHERE / ELSEWHERE(mask) / ELSEWHERE over arrays with different lower bounds -/
+def env₀ : Env := [(0, ⟨0, 3, true⟩), (1, ⟨2, 5, true⟩), (2, ⟨-3, 0, false⟩), (3, ⟨1, 9, true⟩)]
+def w₀ : WClauses :=
+  .masked (.bin .gt (.sec 0 Sec.full) (.scal (.var 7)))
+    [⟨1, Sec.full, .bin .add (.sec 0 Sec.full) (.sec 3 ⟨some 4, some 7, none⟩)⟩,
+     ⟨0, Sec.full, .bin .mul (.sec 1 ⟨some 2, some 5, none⟩) (.sum 3)⟩]
+    (.masked (.bin .lt (.sec 2 Sec.full) (.scal (.lit 0))) [⟨2, Sec.full, .un .abs (.sec 0 Sec.full)⟩]
+      (.final [⟨1, Sec.full, .scal (.lit 0)⟩]))
+
+example : whereElemental env₀ 9 w₀ = true := by decide
+example : (lowerWhere env₀ 9 w₀).isSome = true := by decide
+example : good env₀ (.whereC 1 9 w₀) = true := by decide
+example : whereElemental envW 9 (match wSum with | .whereC _ _ cl => cl | _ => .nil) = false := by decide
+example : whereElemental envW 9 (match wStride with | .whereC _ _ cl => cl | _ => .nil) = false := by decide
+
+/-- `select case (n); case (1); case default; case (2:3, 7); case (:0); end select` with bodies `x := k` -/
+def sel₀ : Src :=
+  .selectCase false (.var 0)
+    (.caseItem [.val 1] (.assign 1 (.lit 1))
+      (.caseDefault (.assign 1 (.lit 5))
+        (.caseItem [.range (some 2) (some 3), .val 7] (.assign 1 (.lit 2))
+          (.caseItem [.range none (some 0)] (.assign 1 (.lit 3)) .caseEnd))))
+
+example : wf sel₀ false = true ∧ good [] sel₀ = true := by decide
+example : lower [] sel₀ =
+    .ifc (.bin .eq (.var 0) (.lit 1)) (.assign 1 (.lit 1))
+      (.ifc (.bin .or (.bin .and (.bin .ge (.var 0) (.lit 2)) (.bin .le (.var 0) (.lit 3))) (.bin .eq (.var 0) (.lit 7)))
+        (.assign 1 (.lit 2))
+        (.ifc (.bin .le (.var 0) (.lit 0)) (.assign 1 (.lit 3)) (.assign 1 (.lit 5)))) := by decide
+example : execSrc [] sel₀ (storeOf [((0, 0, 0), 7)]) (1, 0, 0) = 2 := by decide +kernel
+example : execSrc [] sel₀ (storeOf [((0, 0, 0), 4)]) (1, 0, 0) = 5 := by decide +kernel
+example : execSrc [] sel₀ (storeOf [((0, 0, 0), -4)]) (1, 0, 0) = 3 := by decide +kernel
+example : execSrc env₀ (lower env₀ (.whereC 1 9 w₀)) (storeOf [((0, 1, 0), 4), ((3, 5, 0), 2)]) (1, 3, 0) = 6 := by
+  decide +kernel
 
 end C01
